@@ -59,6 +59,8 @@ EffectReason(e, s) ==
   LET t == ObsState(e.obs) IN
   IF e.ev = "start" THEN ObsReason(e.obs, t, t.exts)      \* the start state is whatever Unmarshal produced (it may repeat an id)
   ELSE IF e.res = "panic" THEN e.ev \o "_panic"
+  \* "a call that returns an error leaves the header unchanged": every field, also the ones no accessor shows while the X bit is clear
+  ELSE IF e.res = "err" /\ ~e.struct_unchanged THEN (IF e.ev = "del" THEN "del_error_changed_header" ELSE "set_error_changed_header")
   ELSE IF e.ev = "set" /\ ~SetEffect(s.s, e.id, Pat(e.len, e.salt), e.res, t)
        THEN (IF e.res = "err" THEN "set_error_changed_header" ELSE "set_effect")
   ELSE IF e.ev = "setfrom" /\ ~SetEffect(s.s, e.id, Lookup(IF s.s.x THEN s.s.exts ELSE <<>>, e.src), e.res, t)
